@@ -111,6 +111,10 @@ func (w *world) transfer(c *ibctesting.TestChain, acct *ibctesting.SenderAccount
 	return &p, nil
 }
 
+// txFailure is raised when a relayer transaction that must succeed for the history to continue fails (the packet is
+// stuck); route-level callers recover it and record the failure as an outcome.
+type txFailure string
+
 // recvResult is what a MsgRecvPacket produced: the written acknowledgement (nil when async) and the packets sent
 // inside the same transaction (PFM forwards).
 type recvResult struct {
@@ -126,7 +130,7 @@ func (w *world) recv(ep *ibctesting.Endpoint, packet channeltypes.Packet) recvRe
 	msg := channeltypes.NewMsgRecvPacket(packet, proof, proofHeight, ep.Chain.SenderAccount.GetAddress().String())
 	res, err := w.tx(ep.Chain, nil, msg)
 	if err != nil {
-		w.t.Fatalf("recv packet: %v", err)
+		panic(txFailure("recv packet: " + err.Error()))
 	}
 	var out recvResult
 	if ack, err := ibctesting.ParseAckFromEvents(res.Events); err == nil {
@@ -153,7 +157,7 @@ func (w *world) ackPacket(ep *ibctesting.Endpoint, packet channeltypes.Packet, a
 	msg := channeltypes.NewMsgAcknowledgement(packet, ack, proof, proofHeight, ep.Chain.SenderAccount.GetAddress().String())
 	res, err := w.tx(ep.Chain, nil, msg)
 	if err != nil {
-		w.t.Fatalf("acknowledge packet: %v", err)
+		panic(txFailure("acknowledge packet: " + err.Error()))
 	}
 	return termOf(res)
 }
@@ -164,7 +168,7 @@ func (w *world) timeoutPacket(ep *ibctesting.Endpoint, packet channeltypes.Packe
 	res, err := ep.TimeoutPacketWithResult(packet)
 	w.sync()
 	if err != nil {
-		w.t.Fatalf("timeout packet: %v", err)
+		panic(txFailure("timeout packet: " + err.Error()))
 	}
 	return termOf(res)
 }
